@@ -378,7 +378,7 @@ def _c11_jobs(tier):
     vg_shards = 6 if q else 16
     out.append(dict(mode='c', shards=vg_shards, cases=1, nshards=vg_shards, part='script', cfgname='valgrind',
                     runner='valgrind', build='dbg', audit=False, timeout_s=900 if q else 3600,
-                    only_actions=['register_flood', 'changed_flood'] if q else None,
+                    only_actions=['register_flood', 'changed_flood', 'reenter_then_changed'] if q else None,
                     only_points=['uncached_exit', 'spec_weakref', 'provided_hash', 'name_hash', 'required_hash',
                                  'generation_attr', 'value_del', 'factory', 'super_self'] if q else None))
     if not q:
